@@ -1,14 +1,32 @@
 /* Free-running twin of the C18 scheduler harness: the same bodies on N threads x ITER iterations under ThreadSanitizer.
  * A cooperative scheduler's hand-offs are happens-before edges that would blind a race detector, hence this separate pass.
  *   c18_tsan <threads> <iterations>      exit code 66 + reports on stderr if TSan saw a race */
+#define _GNU_SOURCE
 #include <pthread.h>
 #include <stdio.h>
 #include <stdlib.h>
 
 #include "c18_bodies.h"
 
+void c18_quiet(int on) { (void)on; }
+
+/* ThreadSanitizer resets its shadow state on mmap and munmap but does not know mremap: a buffer that the kernel moves to an
+ * address range another thread's buffer occupied a moment ago would be reported as a race between the two owners' writes.
+ * In this twin a growing mremap is therefore carried out as mmap + copy + munmap (always a move, which MREMAP_MAYMOVE
+ * permits), i.e. with calls the detector understands. */
+#include <sys/mman.h>
+void *__real_mremap(void *, size_t, size_t, int, ...);
+void *__wrap_mremap(void *a, size_t o, size_t n, int fl, ...) {
+  if (!(fl & MREMAP_MAYMOVE) || (fl & ~MREMAP_MAYMOVE)) return __real_mremap(a, o, n, fl);
+  void *r = mmap(NULL, n, PROT_READ | PROT_WRITE | PROT_EXEC, MAP_PRIVATE | MAP_ANONYMOUS, -1, 0);
+  if (r == MAP_FAILED) return r;
+  memcpy(r, a, o < n ? o : n);
+  munmap(a, o);
+  return r;
+}
+
 static int iters;
-static struct c18_result ref[2][C18_MAXT];
+static struct c18_result ref[3][C18_MAXT];
 static int mismatches;
 
 static void *worker(void *arg) {
@@ -17,7 +35,7 @@ static void *worker(void *arg) {
   uint8_t *buf = malloc(C18_BUF);
   struct c18_result r;
   for (int i = 0; i < iters; i++) {
-    int variant = i & 1;
+    int variant = (i % 8 == 7) ? 2 : (i & 1);   /* every eighth round: the body with buffer growth and re-creation */
     c18_body(id, variant, buf, &r);
     if (memcmp(&r, &ref[variant][id], sizeof r) != 0) __atomic_fetch_add(&mismatches, 1, __ATOMIC_RELAXED);
   }
@@ -29,7 +47,7 @@ int main(int argc, char **argv) {
   int n = argc > 1 ? atoi(argv[1]) : 16;
   iters = argc > 2 ? atoi(argv[2]) : 2000;
   uint8_t buf[C18_BUF];
-  for (int v = 0; v < 2; v++)
+  for (int v = 0; v < 3; v++)
     for (int t = 0; t < C18_MAXT; t++) c18_body(t, v, buf, &ref[v][t]);
   pthread_t th[64];
   if (n > 64) n = 64;
